@@ -1203,3 +1203,386 @@ Proof.
   - apply WI_G_nil. apply WI_frame_same; auto.
   - apply WI_G_nil. apply WI_fail_session. destruct (fix_d6 c); [apply WI_remove_expected|]; exact W1.
 Qed.
+
+(* ------------------------------------------------------------------------------------------ *)
+(* what send_request sends and stores *)
+
+Lemma alist_get_set_other {A} (k k' : naddr) (v : A) l :
+  naddr_eqb k' k = false -> alist_get k' (alist_set k v l) = alist_get k' l.
+Proof.
+  intros E. induction l as [|[k0 v0] t IH]; cbn [alist_set alist_get].
+  - rewrite E. reflexivity.
+  - destruct (naddr_eqb k k0) eqn:E0; cbn [alist_get].
+    + apply naddr_eqb_eq in E0. subst k0. rewrite E. reflexivity.
+    + destruct (naddr_eqb k' k0); [reflexivity|exact IH].
+Qed.
+Lemma alist_get_app_new {A} (k k' : naddr) (v : A) l :
+  alist_get k' (l ++ [(k, v)]) = match alist_get k' l with Some x => Some x | None => if naddr_eqb k' k then Some v else None end.
+Proof.
+  induction l as [|[k0 v0] t IH]; cbn [app alist_get]; [reflexivity|].
+  destruct (naddr_eqb k' k0); [reflexivity|exact IH].
+Qed.
+
+Lemma ins_act_get na na' r' act l r0 :
+  alist_get na (ins_act na' r' act) = Some l -> In r0 l ->
+  r0 = r' \/ exists l0, alist_get na act = Some l0 /\ In r0 l0.
+Proof.
+  unfold ins_act. destruct (alist_get na' act) as [cur|] eqn:E.
+  - destruct (naddr_eqb na na') eqn:E1.
+    + apply naddr_eqb_eq in E1. subst na'. rewrite alist_get_set_same. intros H; inversion H; subst.
+      intros Hin. apply in_app_or in Hin. destruct Hin as [Hin|[<-|[]]]; [right; eauto|left; reflexivity].
+    + rewrite alist_get_set_other by exact E1. intros H Hin. right. eauto.
+  - rewrite alist_get_app_new. destruct (alist_get na act) as [l0|] eqn:E2.
+    + intros H; inversion H; subst. intros Hin. right. eauto.
+    + destruct (naddr_eqb na na'); [|discriminate]. intros H; inversion H; subst.
+      intros [<-|[]]. left. reflexivity.
+Qed.
+
+Lemma is_awaiting_effect s na :
+  outs (fst (is_awaiting_session s na)) = outs s /\ active (hs (fst (is_awaiting_session s na))) = active (hs s) /\
+  dr (fst (is_awaiting_session s na)) = dr s /\
+  forall x, In x (sessions (hs (fst (is_awaiting_session s na)))) <-> In x (sessions (hs s)).
+Proof.
+  unfold is_awaiting_session. pose proof (sess_get_In (hs s) na) as H1. pose proof (active_sess_get' (hs s) na) as H2.
+  destruct (sess_get (hs s) na) as [h se]. cbn [fst] in *. destruct se; cbn [fst with_hs hs outs dr]; auto.
+Qed.
+
+(* no datagram under a key that is not the encryption key of the session with the contact *)
+Lemma send_request_wire c s ct ext rid body now kf :
+  (forall se, In (c_naddr ct, se) (sessions (hs s)) -> s_enc se <> kf) ->
+  forall x, wcnt x kf (outs (fst (send_request c s ct ext rid body now))) = wcnt x kf (outs s).
+Proof.
+  intros Hk x. unfold send_request.
+  destruct (existsb (N.eqb (c_addr ct)) (cfg_listen c)); [reflexivity|].
+  set (na := c_naddr ct) in *.
+  assert (Ha : let s1 := fst (if has_challenge (hs s) na then (s, true) else is_awaiting_session s na) in
+               outs s1 = outs s /\ forall x, In x (sessions (hs s1)) <-> In x (sessions (hs s))).
+  { cbv zeta. destruct (has_challenge (hs s) na); [split; [reflexivity|tauto]|].
+    destruct (is_awaiting_effect s na) as (A & _ & _ & B). auto. }
+  destruct (if has_challenge (hs s) na then (s, true) else is_awaiting_session s na) as [s1 awaiting].
+  cbn [fst] in Ha. cbv zeta in Ha. destruct Ha as [Ho Hs]. destruct awaiting; cbn [fst].
+  - cbn [with_hs outs]. rewrite Ho. reflexivity.
+  - pose proof (sess_get_got (hs s1) na) as Hgot. pose proof (sess_get_In (hs s1) na) as Hin.
+    destruct (sess_get (hs s1) na) as [h2 se]. cbn [fst snd] in Hgot, Hin.
+    destruct se as [se|].
+    + rewrite encrypt_message_eq. cbn [fst snd with_hs send emit add_expected outs hs].
+      rewrite wcnt_snoc, Ho, wbit_wire.
+      destruct (carries x kf _) eqn:Ec; [|cbn; lia].
+      apply carries_iff in Ec. cbn [creq] in Ec. inversion Ec. exfalso.
+      apply (Hk se); [|assumption]. apply Hs. apply Hin. apply Hgot. reflexivity.
+    + destruct (pop_pk (dr (with_hs s1 h2))) as [[[[cn r] aad] e0] d'].
+      cbn [fst snd with_hs send emit add_expected outs hs].
+      rewrite wcnt_snoc, Ho, wbit_none by reflexivity. lia.
+Qed.
+
+(* the requests stored afterwards were stored before, or have the new id *)
+Lemma send_request_active c s ct ext rid body now na l r0 :
+  alist_get na (active (hs (fst (send_request c s ct ext rid body now)))) = Some l -> In r0 l ->
+  rc_rid r0 = rid \/ exists l0, alist_get na (active (hs s)) = Some l0 /\ In r0 l0.
+Proof.
+  unfold send_request.
+  destruct (existsb (N.eqb (c_addr ct)) (cfg_listen c)); [cbn [fst]; intros; right; eauto|].
+  set (na' := c_naddr ct) in *.
+  assert (Ha : active (hs (fst (if has_challenge (hs s) na' then (s, true) else is_awaiting_session s na'))) = active (hs s)).
+  { destruct (has_challenge (hs s) na'); [reflexivity|]. destruct (is_awaiting_effect s na') as (_ & A & _). exact A. }
+  destruct (if has_challenge (hs s) na' then (s, true) else is_awaiting_session s na') as [s1 awaiting].
+  cbn [fst] in Ha. destruct awaiting; cbn [fst].
+  - cbn [with_hs hs]. rewrite active_push_pending', Ha. intros; right; eauto.
+  - pose proof (active_sess_get' (hs s1) na') as Hact.
+    destruct (sess_get (hs s1) na') as [h2 se]. cbn [fst] in Hact.
+    destruct se as [se|].
+    + rewrite encrypt_message_eq. cbn [fst snd with_hs send emit add_expected outs hs].
+      rewrite active_ar_insert. cbn [active sess_put set_sessions]. rewrite Hact, Ha. intros H1 H2.
+      destruct (ins_act_get _ _ _ _ _ _ H1 H2) as [->|X]; [left; reflexivity|right; exact X].
+    + destruct (pop_pk (dr (with_hs s1 h2))) as [[[[cn r] aad] e0] d'].
+      cbn [fst snd with_hs send emit add_expected outs hs].
+      rewrite active_ar_insert. cbn [active]. rewrite Hact, Ha. intros H1 H2.
+      destruct (ins_act_get _ _ _ _ _ _ H1 H2) as [->|X]; [left; reflexivity|right; exact X].
+Qed.
+
+Lemma send_request_sessions_in c s ct ext rid body now :
+  forall x, In x (sessions (hs s)) -> exists se', In (fst x, se') (sessions (hs (fst (send_request c s ct ext rid body now)))).
+Proof. intros [na se] H. exact (QF_send_request c s ct ext rid body now na se H). Qed.
+
+(* ------------------------------------------------------------------------------------------ *)
+(* Handler::handle_challenge *)
+
+Lemma WIP_put_same c G H z ex act pend sess na l :
+  alist_get na act = Some l -> WIP c G H z ex act pend sess -> WIP c G H z ex (put_list na l act) pend sess.
+Proof.
+  intros Hg [A1 A2 A3 A4 A5 A6 A7 A8]. split; auto.
+  - apply AllR_put; [exact A2|]. apply (AllR_get _ _ _ _ A2 Hg).
+  - intros x k. specialize (A3 x k). unfold holdA in *.
+    pose proof (asum_put_gen (hold x k) act na l l Hg eq_refl). lia.
+  - intros x. specialize (A7 x). unfold occ_act in *. pose proof (asum_put x act na l l Hg). lia.
+Qed.
+
+Lemma WI_take_by_nonce c G H0 z ex s n h1 found :
+  ar_remove_by_nonce (hs s) n = (h1, found) -> WI c G H0 z ex s ->
+  match found with
+  | Some (na, r) => WI c G H0 z (r :: ex) (with_hs s h1)
+  | None => WI c G H0 z ex (with_hs s h1)
+  end.
+Proof.
+  intros E W. unfold ar_remove_by_nonce in E.
+  destruct (nmap_get n (nmap (hs s))) as [na|]; [|inversion E; subst; exact W].
+  destruct (alist_get na (active (hs s))) as [l|] eqn:Hg.
+  2:{ inversion E; subst. apply WI_frame_same; auto. }
+  destruct (remove_first (fun r => nonce_eqb (rc_nonce r) n) l) as [[r l']|] eqn:R; inversion E; subst.
+  - unfold WI in *. cbn [with_hs hs outs set_active active pending sessions]. eapply WIP_take; eauto.
+  - unfold WI in *. cbn [with_hs hs outs set_active active pending sessions]. apply WIP_put_same; assumption.
+Qed.
+
+Lemma WI_hshake c G H0 z r r' ex s na ke :
+  rc_rid r' = rc_rid r -> rc_retries r' = rc_retries r ->
+  creq (rc_pkt r') = Some (rc_rid r, ke) -> (forall x, wcnt x ke (H0 ++ outs s) = 0) -> In ke G ->
+  WI c G H0 z (r :: ex) s -> WI c G H0 z (r' :: ex) (send s na (rc_pkt r')).
+Proof.
+  intros E1 E2 Ep Hf Hk W. unfold WI, send. rewrite hist_emit. cbn [emit hs].
+  eapply WIP_hshake; eauto.
+Qed.
+
+Lemma occ_act_stored x act na l r0 : alist_get na act = Some l -> In r0 l -> rc_rid r0 = x -> 1 <= occ_act x act.
+Proof.
+  intros Hg Hin <-. pose proof (asum_get_le (cntf rc_rid (rc_rid r0)) _ _ _ Hg). pose proof (cntf_in rc_rid l r0 Hin).
+  unfold occ_act. lia.
+Qed.
+
+Lemma WI_handle_challenge c G H0 z ex s src n seq cd now :
+  WI c G H0 (fun x => z x + eqn (next_irid (dr s)) x) ex s ->
+  (forall k, In k (hc_keys c s src n cd) -> ~ In k G) ->
+  WI c (G ++ hc_keys c s src n cd) H0 z ex (handle_challenge c s src n seq cd now).
+Proof.
+  intros W. set (z1 := fun x => z x + eqn (next_irid (dr s)) x) in *.
+  assert (Wz : forall G' ex' s', WI c G' H0 z1 ex' s' -> WI c G' H0 z ex' s').
+  { intros G' ex' s' X. eapply WI_z; [|exact X]. intros x. unfold z1. lia. }
+  unfold handle_challenge, hc_keys.
+  destruct (nmap_get n (nmap (hs s))) as [na0|]; [|intros _; apply WI_G_nil; apply Wz; exact W].
+  pose proof (WI_take_by_nonce c G H0 z1 ex s n) as Ht.
+  destruct (ar_remove_by_nonce (hs s) n) as [h1 found]. specialize (Ht h1 found eq_refl W). cbn [fst snd].
+  destruct found as [[na r]|]; [|intros _; apply WI_G_nil; apply Wz; exact Ht].
+  destruct (negb (N.eqb (snd na) src)).
+  { intros _. apply WI_G_nil. apply Wz. apply (WI_insert c G H0 z1 r ex (with_hs s h1) c na now). exact Ht. }
+  destruct (rc_hs_sent r).
+  { intros _. apply WI_G_nil. apply Wz. apply WI_fail_request.
+    destruct (fix_d6 c); [apply WI_remove_expected|]; exact Ht. }
+  cbn zeta. set (ct := rc_contact r).
+  change (dr (with_hs s h1)) with (dr s).
+  pose proof (pop_pk_rid (dr s)) as Hrid.
+  destruct (pop_pk (dr s)) as [[[[cn rr] aad] eph] d']. cbn [fst snd] in Hrid |- *.
+  intros HF.
+  set (ke := mk_key eph (c_id ct) cd (cfg_local c) (c_id ct) false) in *.
+  set (kd := mk_key eph (c_id ct) cd (cfg_local c) (c_id ct) true) in *.
+  set (hn := (cn, rr)).
+  set (auth := PHs (cfg_local c) hn aad (Sig (cfg_local c) cd eph (c_id ct)) eph true
+                 (if N.ltb seq (e_seq (cfg_enr c)) then Some (cfg_enr c) else None)
+                 (CEnc ke hn (MReq (rc_rid r) (rc_body r)) aad)).
+  set (na' := c_naddr ct).
+  set (s2 := {| hs := hs (with_hs s h1); dr := d'; outs := outs (with_hs s h1) |}).
+  assert (W2 : WI c G H0 z1 (r :: ex) s2) by exact Ht.
+  assert (Hke : ~ In ke G) by (apply HF; left; reflexivity).
+  assert (Hun : forall x, wcnt x ke (H0 ++ outs s2) = 0) by (apply (WI_unused c G H0 z1 (r :: ex) s2 ke W2 Hke)).
+  assert (HG' : incl G (G ++ [ke; kd])) by (apply incl_appl, incl_refl).
+  assert (Hke' : In ke (G ++ [ke; kd])) by (apply in_or_app; right; left; reflexivity).
+  (* the state after re-inserting the request with the handshake packet and sending it *)
+  assert (H4 : forall r', rc_pkt r' = auth -> rc_rid r' = rc_rid r -> rc_retries r' = rc_retries r ->
+            let s4 := send (with_hs s2 (ar_insert c (hs s2) na' r' now)) na' auth in
+            WI c (G ++ [ke; kd]) H0 z1 ex s4 /\
+            (forall x, wcnt x ke (H0 ++ outs s4) = b2n (carries x ke auth)) /\
+            (forall l r0, alist_get na' (active (hs s4)) = Some l -> In r0 l -> skipf (Some hn) r0 = true ->
+               rc_rid r0 <> rc_rid r)).
+  { intros r' Ep Er Et. cbv zeta. split; [|split].
+    - change (send (with_hs s2 (ar_insert c (hs s2) na' r' now)) na' auth)
+        with (with_hs (send s2 na' auth) (ar_insert c (hs (send s2 na' auth)) na' r' now)).
+      apply WI_insert. rewrite <- Ep. apply (WI_hshake c _ H0 z1 r r' ex s2 na' ke); auto.
+      + rewrite Ep. reflexivity.
+      + eapply WI_G; [exact HG'|exact W2].
+    - intros x. cbn [send emit with_hs outs]. rewrite app_assoc, wcnt_snoc, wbit_wire, Hun. reflexivity.
+    - cbn [send emit with_hs hs]. rewrite active_ar_insert. intros l r0 Hl Hr0 Hsk Heq.
+      destruct (ins_act_get _ _ _ _ _ _ Hl Hr0) as [->|(l0 & Hl0 & Hin0)].
+      + unfold skipf, rc_nonce in Hsk. rewrite Ep in Hsk. cbn [auth pkt_nonce] in Hsk.
+        rewrite HandlerB_Base.nonce_eqb_refl in Hsk. discriminate.
+      + pose proof (occ_act_stored _ _ _ _ _ Hl0 Hin0 Heq) as X.
+        pose proof (W_U _ _ _ _ _ _ _ _ W2 (rc_rid r)) as U. cbn [cntf] in U. rewrite eqn_refl in U.
+        lia. }
+  destruct (c_enr ct) as [e|].
+  - match goal with |- context [ar_insert c _ na' ?r' now] => destruct (H4 r' eq_refl eq_refl eq_refl) as (A & B & C) end.
+    cbv zeta in A, B, C. apply WI_new_session.
+    + apply WI_emit_event. apply Wz. exact A.
+    + intros k Hk. apply in_or_app. right. exact Hk.
+    + cbn [s_enc]. intros l r0 Hl Hr0 Hsk. cbn [emit hs] in Hl. rewrite hist_emit, wcnt_snoc. cbn [wbit].
+      rewrite B. destruct (carries (rc_rid r0) ke auth) eqn:Ec; [|reflexivity].
+      apply carries_iff in Ec. cbn [auth creq] in Ec. inversion Ec as [Ec']. exfalso.
+      exact (C l r0 Hl Hr0 Hsk (eq_sym Ec')).
+  - match goal with |- context [ar_insert c _ na' ?r' now] => destruct (H4 r' eq_refl eq_refl eq_refl) as (A & B & C);
+      set (rr' := r') in * end.
+    cbv zeta in A, B, C.
+    set (s4 := send (with_hs s2 (ar_insert c (hs s2) na' rr' now)) na' auth) in *.
+    pose proof (pop_rid_fst (dr s4)) as Hi.
+    destruct (pop_rid (dr s4)) as [irid d'']. cbn [fst] in Hi.
+    assert (Ei : irid = next_irid (dr s)).
+    { rewrite Hi. unfold next_irid. cbn [s4 send emit with_hs dr s2]. rewrite Hrid. reflexivity. }
+    set (s5 := {| hs := hs s4; dr := d''; outs := outs s4 |}).
+    pose proof (WI_send_request c (G ++ [ke; kd]) H0 z ex s5 ct false irid 0%N now) as W6.
+    pose proof (send_request_wire c s5 ct false irid 0%N now ke) as Hw.
+    pose proof (send_request_active c s5 ct false irid 0%N now na') as Ha.
+    destruct (send_request c s5 ct false irid 0%N now) as [s6 ok]. cbn [fst] in W6, Hw, Ha.
+    apply WI_new_session.
+    + apply W6. rewrite Ei. exact A.
+    + intros k Hk. apply in_or_app. right. exact Hk.
+    + cbn [s_enc]. intros l r0 Hl Hr0 Hsk. rewrite wcnt_app, Hw.
+      * change (outs s5) with (outs s4). rewrite <- wcnt_app, B.
+        destruct (carries (rc_rid r0) ke auth) eqn:Ec; [|reflexivity].
+        apply carries_iff in Ec. cbn [auth creq] in Ec. inversion Ec as [Ec']. exfalso.
+        destruct (Ha l r0 Hl Hr0) as [Hx|(l0 & Hl0 & Hin0)].
+        -- pose proof (W_U _ _ _ _ _ _ _ _ W2 (rc_rid r)) as U. cbn [cntf] in U. rewrite eqn_refl in U.
+           unfold z1 in U. rewrite <- Ei in U. replace (rc_rid r) with irid in U by congruence.
+           rewrite eqn_refl in U. lia.
+        -- exact (C l0 r0 Hl0 Hin0 Hsk (eq_sym Ec')).
+      * intros se Hin Hse. apply Hke. rewrite <- Hse.
+        eapply (W_G _ _ _ _ _ _ _ _ W2); [exact Hin|left; reflexivity].
+Qed.
+
+(* ------------------------------------------------------------------------------------------ *)
+(* timers *)
+
+Lemma WI_fire_request c G H0 z ex s n na now :
+  WI c G H0 z ex s -> WI c G H0 z ex (fire_request c s n na now).
+Proof.
+  intros W. unfold fire_request.
+  assert (W0 : WI c G H0 z ex (with_hs s (set_active (hs s) (active (hs s)) (nmap_remove n (nmap (hs s)))))).
+  { apply WI_frame_same; auto. }
+  destruct (alist_get na (active (hs s))) as [l|] eqn:Hg; [|exact W0].
+  destruct (remove_first (fun r => nonce_eqb (rc_nonce r) n) l) as [[r l']|] eqn:R; [|exact W0].
+  apply WI_handle_request_timeout.
+  unfold WI in *. cbn [with_hs hs outs set_active active pending sessions]. eapply WIP_take; eauto.
+Qed.
+
+Lemma WI_fire_challenge c G H0 z ex s na now :
+  WI c G H0 z ex s -> WI c G H0 z ex (fire_challenge c s na now).
+Proof.
+  intros W. unfold fire_challenge. apply WI_send_pending_requests. apply WI_remove_expected.
+  apply WI_frame_same; auto.
+Qed.
+
+Lemma WI_fire_group c G H0 z ex g : forall s d ft,
+  WI c G H0 z ex s -> WI c G H0 z ex (fire_group c s g d ft).
+Proof.
+  unfold fire_group. induction g as [|x t IH]; intros s d ft W; cbn [fold_left]; [exact W|].
+  apply IH. destruct (nmap_deadline (fst x) (nmap (hs s))) as [d'|]; [|exact W].
+  destruct (N.eqb d' d); [apply WI_fire_request; exact W|exact W].
+Qed.
+
+Lemma WI_fire_due c G H0 z ex now fuel : forall s,
+  WI c G H0 z ex s -> WI c G H0 z ex (fire_due c s now fuel).
+Proof.
+  induction fuel as [|f IH]; intros s W; cbn [fire_due]; [exact W|].
+  assert (FR : forall d, WI c G H0 z ex (match group_of d (nmap (hs s)) with
+      | _ :: _ :: _ =>
+        let (rev_order, d') := pop_rev (dr s) in
+        fire_group c {| hs := hs s; dr := d'; outs := outs s |}
+          (if rev_order then rev (group_of d (nmap (hs s))) else group_of d (nmap (hs s))) d (fire_time c d now)
+      | _ => fire_group c s (group_of d (nmap (hs s))) d (fire_time c d now)
+      end)).
+  { intros d. destruct (group_of d (nmap (hs s))) as [|x [|y g]]; try (apply WI_fire_group; exact W).
+    destruct (pop_rev (dr s)) as [ro d']. apply WI_fire_group. exact W. }
+  destruct (min_deadline_nmap (nmap (hs s)) None) as [[[rn ra] rd]|];
+  destruct (min_deadline_ch (challenges (hs s)) None) as [[[cna cc] cd]|].
+  - destruct (N.ltb rd now && (negb (N.ltb cd now) || N.leb rd cd)); [apply IH; apply FR|].
+    destruct (N.ltb cd now); [apply IH; apply WI_fire_challenge; exact W|exact W].
+  - destruct (N.ltb rd now); [apply IH; apply FR|exact W].
+  - destruct (N.ltb cd now); [apply IH; apply WI_fire_challenge; exact W|exact W].
+  - exact W.
+Qed.
+
+(* ------------------------------------------------------------------------------------------ *)
+(* the step and the run *)
+
+Lemma WI_dispatch c G H0 z s0 e now d :
+  d_rid (dr s0) = d_rid d ->
+  WI c G H0 (fun x => z x + cnt x (new_ids e d)) [] s0 ->
+  (forall k, In k (installed_keys c s0 e) -> ~ In k G) ->
+  WI c (G ++ installed_keys c s0 e) H0 z [] (dispatch c s0 e now).
+Proof.
+  intros Hd W HF.
+  assert (Wz : WI c G H0 z [] s0).
+  { eapply WI_z; [|exact W]. intros x. cbv beta. lia. }
+  destruct e as [ct rid body|na rid rb|na n known|from p|]; cbn [dispatch installed_keys] in *.
+  - apply WI_G_nil. pose proof (WI_send_request c G H0 z [] s0 ct true rid body now) as X.
+    destruct (send_request c s0 ct true rid body now) as [s1 ok]. cbn [fst] in X.
+    assert (Y : WI c G H0 z [] s1).
+    { apply X. eapply WI_z; [|exact W]. intros x. cbv beta. cbn [new_ids]. rewrite cnt_single. lia. }
+    destruct ok; [exact Y|apply WI_emit_event; exact Y].
+  - apply WI_G_nil. apply WI_send_response. exact Wz.
+  - apply WI_G_nil. apply WI_send_challenge. exact Wz.
+  - destruct p as [src n aad ct|n idn seq cd|src n aad sg eph eph_ok rec ct].
+    + apply WI_G_nil. apply WI_handle_message. exact Wz.
+    + apply WI_handle_challenge; [|exact HF].
+      eapply WI_z; [|exact W]. intros x. cbv beta. cbn [new_ids]. rewrite cnt_single.
+      unfold next_irid. rewrite Hd. lia.
+    + apply (WI_handle_auth_message c G H0 z [] s0 (src, from)); assumption.
+  - apply WI_G_nil. exact Wz.
+Qed.
+
+Local Transparent tick.
+Lemma tick_WI c G H0 z h now d :
+  WI c G H0 z [] {| hs := h; dr := d; outs := [] |} -> WI c G H0 z [] (tick c h now d).
+Proof. unfold tick. apply WI_fire_due. Qed.
+Lemma tick_d_rid c h now d : d_rid (dr (tick c h now d)) = d_rid d.
+Proof. unfold tick. destruct (fire_due_live c now TICK_FUEL {| hs := h; dr := d; outs := [] |}) as [X _]. exact X. Qed.
+Global Opaque tick.
+
+(* the invariant between steps *)
+Definition WS (c : config) (G : list key) (hist : list output) (z : N -> nat) (h : hstate) : Prop :=
+  WIP c G hist z [] (active h) (pending h) (sessions h).
+
+Lemma WS_step c h e now d hist G z :
+  WS c G hist (fun x => z x + cnt x (new_ids e d)) h ->
+  let ik := installed_keys c (tick c h now d) e in
+  (forall k, In k ik -> ~ In k G) ->
+  WS c (G ++ ik) (hist ++ snd (step c h e now d)) z (fst (step c h e now d)).
+Proof.
+  intros W ik HF. rewrite step_eq. cbn [fst snd].
+  assert (W0 : WI c G hist (fun x => z x + cnt x (new_ids e d)) [] (tick c h now d)).
+  { apply tick_WI. unfold WI. cbn [hs outs]. rewrite app_nil_r. exact W. }
+  exact (WI_dispatch c G hist z (tick c h now d) e now d (tick_d_rid c h now d) W0 HF).
+Qed.
+
+Lemma WS_run c evs : forall h hist G z,
+  WS c G hist (fun x => z x + cnt x (run_new_ids evs)) h -> fresh_installs c h G evs ->
+  exists G', WS c G' (hist ++ concat (snd (run c h evs))) z (fst (run c h evs)).
+Proof.
+  induction evs as [|[[e now] d] rest IH]; intros h hist G z W HF.
+  - exists G. cbn [run fst snd concat]. rewrite app_nil_r. eapply WIP_z; [|exact W]. intros x. cbv beta. lia.
+  - cbn [fresh_installs] in HF. destruct HF as [HF1 HF2].
+    assert (W' : WS c G hist (fun x => (z x + cnt x (run_new_ids rest)) + cnt x (new_ids e d)) h).
+    { eapply WIP_z; [|exact W]. intros x. cbv beta. rewrite run_new_ids_cons, cnt_app. lia. }
+    pose proof (WS_step c h e now d hist G _ W' HF1) as H1. cbn zeta in H1.
+    destruct (IH _ _ _ _ H1 HF2) as [G' H2]. exists G'.
+    rewrite run_snd_cons, HandlerB_Nonce.run_fst_cons. cbn [concat]. rewrite app_assoc. exact H2.
+Qed.
+
+Lemma WS_init c ids : NoDup ids -> WS c [] [] (fun x => cnt x ids) init_state.
+Proof.
+  intros Hn. split; cbn.
+  - intros r [].
+  - intros na l r [].
+  - intros x k. lia.
+  - intros x k. unfold Mx. lia.
+  - intros x k Hx. lia.
+  - intros x k Hx. lia.
+  - intros x. unfold cnt. rewrite (NoDup_count_occ N.eq_dec) in Hn. specialize (Hn x). lia.
+  - intros na se k [].
+Qed.
+
+(* wire_bound *)
+Theorem wire_bound_run c evs x k :
+  NoDup (run_new_ids evs) -> fresh_installs c init_state [] evs ->
+  wcnt x k (concat (snd (run c init_state evs))) <= N.to_nat (N.max 1 (cfg_retries c)).
+Proof.
+  intros Hn HF.
+  assert (W0 : WS c [] [] (fun y => (fun _ => 0) y + cnt y (run_new_ids evs)) init_state).
+  { eapply WIP_z; [|apply WS_init; exact Hn]. intros y. cbv beta. lia. }
+  destruct (WS_run c evs init_state [] [] (fun _ => 0) W0 HF) as [G' W].
+  exact (W_B _ _ _ _ _ _ _ _ W x k).
+Qed.
